@@ -29,7 +29,9 @@ fn op(addr: usize, op: RawOp) -> bool {
 unsafe impl lock_api::RawMutex for SimRawMutex {
     #[allow(clippy::declare_interior_mutable_const)]
     const INIT: Self = SimRawMutex(0);
-    type GuardMarker = lock_api::GuardNoSend;
+    // the permissive choice (as in spin, or parking_lot with `send_guard`): whatever the library
+    // lets safe code do with guards of such locks is part of what is simulated
+    type GuardMarker = lock_api::GuardSend;
 
     fn lock(&self) {
         op(self as *const _ as usize, RawOp::Lock);
@@ -45,7 +47,9 @@ unsafe impl lock_api::RawMutex for SimRawMutex {
 unsafe impl lock_api::RawRwLock for SimRawRwLock {
     #[allow(clippy::declare_interior_mutable_const)]
     const INIT: Self = SimRawRwLock(0);
-    type GuardMarker = lock_api::GuardNoSend;
+    // the permissive choice (as in spin, or parking_lot with `send_guard`): whatever the library
+    // lets safe code do with guards of such locks is part of what is simulated
+    type GuardMarker = lock_api::GuardSend;
 
     fn lock_shared(&self) {
         op(self as *const _ as usize, RawOp::LockShared);
